@@ -232,7 +232,7 @@ func requireBurst(r *vlib.Run) {
 
 func requireFull(r *vlib.Run) {
 	for k, v := range map[string]int64{
-		"full_cases": 14, "full_q_total": 200, "full_failures_upstream": 15, "full_zone_failures_recorded": 12,
+		"full_cases": 15, "full_q_total": 200, "full_failures_upstream": 15, "full_zone_failures_recorded": 12,
 		"full_q_suppressed": 15, "full_suppressed_by_zone_state": 12, "full_suppressed_by_dead_zone_state": 1,
 		"full_must_reach_checks": 60, "full_must_reach_held": 50, "full_probes_after_expiry": 6,
 		"full_probes_after_reset": 2, "full_useful_answers_resetting_state": 1,
@@ -261,6 +261,10 @@ func requireFull(r *vlib.Run) {
 		"full_cdfail_other_cd_reached_upstream_dnssec_on_cd0": 4, "full_cdfail_other_cd_reached_upstream_dnssec_on_cd1": 4,
 		"full_nearmiss_cd": 18, "full_cdfail_same_cd_suppressed": 12, "full_cdfail_error_delegation-loop": 10,
 		"full_cdfail_error_max-depth": 1, "full_cdfail_variant_bogus": 1,
+		// scenario shed-nsaddr-multi: >= 2 glue-less NS hosts, shed / really failing address lookups in both walk orders
+		"full_scenario_shed-nsaddr-multi": 1, "full_nsmulti_struck": 3, "full_nsmulti_struck_class_i": 1,
+		"full_nsmulti_struck_class_ii": 1, "full_nsmulti_struck_class_iii": 1, "full_nsmulti_no_zone_state": 3,
+		"full_nsmulti_followup_resolved": 5, "full_nsmulti_control_failed": 1, "full_nsmulti_control_zone_failure_recorded": 1,
 	} {
 		r.Require(k, v)
 	}
